@@ -108,11 +108,13 @@ pub fn make_config(profile: &str, run_seed: u64, tier_thorough: bool) -> Config 
     let max_len = if tier_thorough { 200 } else { 120 };
     let len = rng.geometric(4, max_len, if tier_thorough { 40 } else { 24 }) as u16;
     // One run in 400 works on a big world (and is short).
+    // (Under the Miri interpreter the large worlds would take hours: the draws are made, the worlds are not.)
     let big = rng.chance(1, 400);
     // One run in 300 starts from a world with very many archetype tables (and is short).
     let many = !big && rng.chance(1, 300);
     // One run in 8000 works on a huge world: more identifier slots than fit in 16 bits.
     let huge = !big && !many && g::NC > 0 && rng.chance(1, 8000);
+    let (big, many, huge) = if cfg!(miri) { (false, false, false) } else { (big, many, huge) };
     let len = if huge { len.min(4) } else if big || many { len.min(10) } else { len };
     Config {
         profile: profile.to_string(),
